@@ -21,6 +21,7 @@ NOT_CLAIMED = {}
 
 PROPS = {
     'C13': {
+        'scale': {'quick': 5, 'thorough': 3},
         'level': 'exploration',
         'technique': 'offline exact-arithmetic checker (Python ints/Fractions) over a recorded event log of real renders; complete boundary grid + random pairs near boundaries',
         'claim': 'Every record of the complete boundary grid (185 values in every representation able to hold them, squared, x 13 operators and negation) '
@@ -37,6 +38,7 @@ PROPS = {
         'must_observe': ['grid_rows'],
     },
     'C14': {
+        'scale': {'quick': 6, 'thorough': 5},
         'legs': {'thorough': ['miri']},
         'level': 'exploration',
         'technique': "offline checker using Python's own list/str slice semantics over a recorded event log of real renders; complete grid of lengths x parameter triples",
@@ -52,6 +54,7 @@ PROPS = {
         'must_observe': ['grid_cells_completed'],
     },
     'C20': {
+        'scale': {'quick': 6, 'thorough': 4},
         'level': 'exploration',
         'technique': "offline checker using Python's base64, urllib.parse, json and re over a recorded event log of real renders with the contrib filters registered",
         'claim': 'Every single ASCII byte, punctuation runs, strings of all planes, lengths mod 3 and 3-12 kB strings go through all 9 spellings of the b64 options, the round trip, '
@@ -63,6 +66,7 @@ PROPS = {
         'must_observe': [],
     },
     'C15': {
+        'scale': {'quick': 6, 'thorough': 12},
         'level': 'exploration',
         'technique': 'law checker over recorded observations of the public Eq/PartialOrd/Ord of tera::Value (all pairs and triples of a value pool) and of template comparisons; key-lookup monitor against an association-list model',
         'claim': 'The base pool (143 values: every kind, every number in every encoding able to hold it, safe/normal strings, nested and near-equal arrays and maps) is checked '
@@ -76,6 +80,7 @@ PROPS = {
         'must_observe': ['base_pool_completed', 'lookups', 'triples'],
     },
     'C16': {
+        'scale': {'quick': 4, 'thorough': 3},
         'level': 'exploration',
         'technique': 'in-harness contract checker over real renders: unique element ids make permutation, stability, first-occurrence and partition checks exact; model equality/order written from the docs',
         'claim': 'Arrays of 0-200 elements (around and beyond the 20-element merge threshold of slice::sort) over mixed kinds, duplicates across numeric encodings, nested arrays/maps, none and '
@@ -86,6 +91,7 @@ PROPS = {
         'must_observe': ['sorts_verified', 'uniques_verified', 'group_bys_verified', 'nth_verified'],
     },
     'C17': {
+        'scale': {'quick': 10, 'thorough': 4},
         'legs': {'thorough': ['miri']},
         'level': 'exploration',
         'technique': 'matrix enumeration with a panic recorder (55 built-ins x 57 receivers x declared-argument states absent/right/wrong kind) + per-built-in contract oracles on random hostile strings and numbers',
@@ -98,6 +104,7 @@ PROPS = {
         'must_observe': ['matrix_builtins_completed', 'string_law_cases', 'number_law_cases'],
     },
     'C08': {
+        'scale': {'quick': 5, 'thorough': 5},
         'level': 'exploration',
         'technique': 'specification monitor: templates generated as item lists (text, expression, every tag kind, comments, raw) with all `-` marker placements; expected output computed from the list alone and compared with real renders; identity and re-spelling metamorphism over accepted delimiter sets',
         'claim': 'Each generated template is rendered under the default and random accepted delimiter sets (ASCII pairs, two-byte characters, mixed) and compared byte for byte with the 60-line item specification; '
@@ -108,6 +115,7 @@ PROPS = {
         'must_observe': ['templates_compared', 'identity_checks', 'respelling_groups'],
     },
     'C06': {
+        'scale': {'quick': 8, 'thorough': 2},
         'legs': {'thorough': ['asan', 'fuzz']},
         'level': 'exploration',
         'technique': 'totality monitor: panic recorder + supervised child processes (stack overflow/abort attribution) + per-case CPU watchdog over nesting sweeps, length sweeps, corpus mutation, token soup and accepted delimiter sets',
@@ -121,6 +129,7 @@ PROPS = {
         'case_budget_ms': 20000,
     },
     'C12': {
+        'scale': {'quick': 6, 'thorough': 15},
         'level': 'fault_enumeration',
         'technique': 'fault injection with known coordinates + span checker: one fault of a known byte range is injected into a known template of a valid multi-template set; every datum of the error is recomputed from the source',
         'claim': '55 fault kinds (26 render-time, 16 syntax, 5 add-time references, 8 unterminated constructs) x 7 placements (entry top level, block of parent, block of child with super(), included, component body, '
@@ -132,6 +141,7 @@ PROPS = {
         'must_observe': ['spans_checked_with_coordinates', 'build_reports_checked', 'display_calls', 'call_site_positions_checked'],
     },
     'C19': {
+        'scale': {'quick': 3, 'thorough': 3},
         'level': 'exploration',
         'technique': 'round-trip monitor over a family of harness-defined serde types (by value and by reference) + refusal monitor for unrepresentable keys + print prediction by an independent model serializer',
         'claim': '72 Rust types built from the serde data model (all integer widths, f32/f64, bool, char, String, unit, Option, Vec, tuples 1-4, BTreeMap/HashMap with String/every integer width/char/bool/unit-enum keys, '
@@ -143,6 +153,7 @@ PROPS = {
         'must_observe': ['roundtrips_ok', 'print_comparisons', 'unrepresentable_keys_refused'],
     },
     'C18': {
+        'scale': {'quick': 1.5, 'thorough': 1},
         'legs': {'thorough': ['miri', 'tsan']},
         'level': 'fault_enumeration',
         'technique': 'channel differential + writer fault enumeration (every write call, byte offsets, 4 failure kinds, short writes) + purity digest + concurrent-vs-sequential comparison on a shared instance; Miri and ThreadSanitizer legs in the thorough tier',
@@ -155,6 +166,7 @@ PROPS = {
         'must_observe': ['channel_pairs_compared', 'failure_points_injected', 'purity_checks', 'concurrent_renders_compared', 'channel_pairs_at_nesting_limits'],
     },
     'C09': {
+        'scale': {'quick': 3, 'thorough': 1.5},
         'level': 'translation_validation',
         'technique': 'translation validation of the fusion pass: structural alignment of the pre- and post-pass listings of every chunk (hooks) with jump-target checking + differential rendering with the pass switched off',
         'claim': 'For every generated program every chunk (template bodies, blocks, components) is aligned instruction by instruction with its own pre-pass listing: only `LoadName(n) LoadAttr* [WriteTop]` may be merged, '
@@ -166,6 +178,7 @@ PROPS = {
         'must_observe': ['chunks_aligned', 'merged_groups', 'jumps_checked', 'differential_renders', 'render_end_events'],
     },
     'C07': {
+        'scale': {'quick': 2, 'thorough': 1},
         'legs': {'thorough': ['miri', 'asan', 'fuzz']},
         'level': 'exploration',
         'technique': 'totality monitor (panic recorder, supervised children, UTF-8 validator on raw render_to bytes) + hook-based stack-balance invariant at the end of every interpreter run + registry monitor (unknown names injected at every syntactic position must be rejected at registration, never discovered while rendering)',
@@ -179,6 +192,7 @@ PROPS = {
         'case_budget_ms': 60000,
     },
     'C10': {
+        'scale': {'quick': 4, 'thorough': 3},
         'level': 'exploration',
         'technique': 'history monitor against a sequential model of the template set: snapshot comparison (hook digest of all derived state + public observables) after every failed call, fresh-instance comparison after every successful call and reconfiguration',
         'claim': 'Histories of 1-25 calls over 9 names and 35 template kinds: single and batched adds, valid and invalid in every listed way (syntax error early/late, missing parent, extends and include cycles, unknown filter/test/function/component/include, '
@@ -190,6 +204,7 @@ PROPS = {
         'must_observe': ['failed_calls_checked_for_rollback', 'fresh_instance_comparisons', 'successful_calls', 'autoescape_reconfigurations'],
     },
     'C11': {
+        'scale': {'quick': 4, 'thorough': 15},
         'level': 'exploration',
         'technique': 'independent graph oracle (exact-then-prefix name resolution, plain DFS for cycles) compared with the engine verdict and error kind on generated extends/include digraphs; every accepted set rendered in a supervised child process with a CPU watchdog',
         'claim': 'Random digraphs on 1-10 templates (<= 1 extends edge per node; include edges at top level, in dead branches, captures, component bodies, loops, blocks, filter sections and else branches), self-loops, cycles of length 2-10 entered from a tail, '
@@ -200,6 +215,7 @@ PROPS = {
         'must_observe': ['graphs_accepted', 'graphs_rejected', 'renders_supervised', 'graphs_completed_in_a_second_step'],
     },
     'C02': {
+        'scale': {'quick': 4, 'thorough': 10},
         'level': 'exploration',
         'technique': 'three oracles on generated expression trees rendered by the real engine: parenthesisation metamorphism (documented precedence table vs full parentheses), reference-model evaluation (model written from the docs), and an evaluation-trace monitor through a registered probe function',
         'claim': 'Kind-directed random trees (depth 2-5) over all binary/unary/postfix forms, filters, tests, function calls, array/map literals and list comprehensions are printed (a) with the minimal parentheses the documented precedence/associativity table implies plus random redundant parentheses and inter-token whitespace/newlines, '
@@ -210,6 +226,7 @@ PROPS = {
         'must_observe': ['spelling_pairs_compared', 'traces_compared', 'probe_events', 'undefined_rule_cells'],
     },
     'C03': {
+        'scale': {'quick': 2, 'thorough': 8},
         'level': 'exploration',
         'technique': 'reference-model monitor: generated statement trees are interpreted by a model written from the documentation and the engine output must match exactly; scope visibility also observed through the engine\'s own `__tera_context` dump; map loops checked as multisets of iteration records',
         'claim': 'Template sets of 1-5 templates, trees of depth 2-5 mixing if/elif/else (with negation), for over arrays (also filtered through reverse), strings incl. multi-byte, empty targets with else bodies, break/continue under ifs, set/set_global/set from another name in and out of loops, '
@@ -220,6 +237,7 @@ PROPS = {
         'must_observe': ['programs_compared', 'scope_dump_comparisons', 'map_loops_checked'],
     },
     'C04': {
+        'scale': {'quick': 4, 'thorough': 30},
         'level': 'exploration',
         'technique': 'reference-model monitor for inheritance: unique sentinel tokens in every block body make the rendered text the resolution trace; model resolver (most-derived definition, super() to the nearest defining ancestor) vs real renders and render_block',
         'claim': 'Chains of 1-8 templates; per level a random subset of 6 block names nested up to 3 deep, inside filter sections and set-blocks, child blocks introduced inside overridden blocks, ancestors that skip a block, super() at several levels, super() without any ancestor definition (must be an error), '
@@ -230,6 +248,7 @@ PROPS = {
         'must_observe': ['leaf_renders_compared', 'block_renders_compared', 'orphan_block_sets', 'both_refuse', 'chains_reparented_after_registration'],
     },
     'C05': {
+        'scale': {'quick': 4, 'thorough': 15},
         'level': 'exploration',
         'technique': 'reference-model monitor for component binding observed through the engine\'s own `__tera_context` dump inside every generated component, accept/reject agreement, API-vs-template differential, escaping, fallback-prefix priority and recursion checks',
         'claim': 'Signatures of 0-5 parameters x {untyped, 7 types} x {no default, default of each literal kind} x rest; calls inline and with body, literal/braced/shorthand/spread arguments, unknown arguments, from the top level, loops, blocks, includes, captures and other components\' bodies. '
@@ -241,6 +260,7 @@ PROPS = {
         'must_observe': ['context_dumps_compared', 'rejections_agree', 'api_template_pairs', 'escape_checks', 'priority_checks', 'recursion_checks'],
     },
     'C01': {
+        'scale': {'quick': 2, 'thorough': 1.5},
         'legs': {'thorough': ['miri']},
         'level': 'exploration',
         'technique': 'two observation modes over generated routing programs: default escaper with disjoint data/text alphabets (no raw special may reach the output), and a marking escape function installed through the public set_escape_fn whose private-use brackets give the exact number of escapings of every data character, with an event count of escaper calls',
